@@ -12,6 +12,7 @@ RULE = (
     "runner-drive acceptances of off-grid orders requested by scripted agents. Oracle in exact rational arithmetic "
     "on the float inputs. Case = one (tick, price, side) acceptance; distinct = that triple; non-trivial = the "
     "price is off the grid (exact test) or within 3 ulp of a grid point."
+    ' Since the seeded rounds: every 7th order is first offered to a second venue with another grid (refused there), off-grid time-0 prices with orders pegged exactly to get_market_price(), a pegged template and a placement-only opening session in the runner cases.'
 )
 ASSUMPTIONS = [
     "slack: none when the tick is a power of two (the engine's division is exact); otherwise 4 ulp(max(price, tick)) "
